@@ -14,7 +14,8 @@ rm -rf $OUT/demo; [ -d deliver/demo ] && rsync -a --exclude target deliver/demo/
 git checkout -q -- src 2>/dev/null
 git apply --check $OUT/patch.diff || { echo "patch does not apply"; exit 3; }
 DEMO_CMD="cd $WT/deliver/demo && cargo run --offline -q"
-[ -f deliver/demo_cmd.txt ] && DEMO_CMD=$(cat deliver/demo_cmd.txt)
+# the primary command only: the first line that is neither empty nor a comment
+[ -f deliver/demo_cmd.txt ] && DEMO_CMD=$(grep -v '^[[:space:]]*#' deliver/demo_cmd.txt | grep -v '^[[:space:]]*$' | head -1)
 # without the change
 ( eval "$DEMO_CMD" ) > $OUT/demo_without.log 2>&1; RC_WITHOUT=$?
 git apply $OUT/patch.diff
